@@ -5,6 +5,8 @@ import (
 	"encoding/json"
 	"fmt"
 	"math/rand"
+	"net"
+	"net/http"
 	"os"
 	"os/exec"
 	"path/filepath"
@@ -421,6 +423,41 @@ func runC19(w *fw.W) {
 				"[(5 + 1).try.tag.err.type, (5 * 2).try.tag.err.type, (\"a\" + \"b\").try.tag.err.type, \"a\".uc.try.tag.err.type].p\n\"ab\".rev.tag"},
 			{"a function literal with a default evaluated twice in different scopes",
 				[]string{"mk := {|g| {|nm, hello: g| hello + nm}}\nmk(\"Hi \")(\"A\").p"}, "mk := {|g| {|nm, hello: g| hello + nm}}\nmk(\"Yo \")(\"B\").p"},
+		}
+		// a server (in this process) that sets a cookie on /login and reports the cookie it receives on /whoami:
+		// what an earlier program's requests were answered with does not travel with a later program's requests
+		if ln, err := net.Listen("tcp", "127.0.0.1:0"); err == nil {
+			mux := http.NewServeMux()
+			mux.HandleFunc("/login", func(rw http.ResponseWriter, r *http.Request) {
+				http.SetCookie(rw, &http.Cookie{Name: "sid", Value: "alice", Path: "/"})
+				rw.Header().Set("X-Seen", "1")
+				fmt.Fprint(rw, "welcome")
+			})
+			mux.HandleFunc("/whoami", func(rw http.ResponseWriter, r *http.Request) {
+				if c, err := r.Cookie("sid"); err == nil {
+					fmt.Fprint(rw, "logged in as "+c.Value)
+					return
+				}
+				fmt.Fprint(rw, "anonymous")
+			})
+			srv := &http.Server{Handler: mux}
+			go srv.Serve(ln)
+			defer srv.Close()
+			base := "http://" + ln.Addr().String()
+			scenarios = append(scenarios, struct {
+				name string
+				hist []string
+				b    string
+			}{"requests of an earlier program, then a request of a later one to the same host",
+				[]string{"invite!(\"http\")\nr := C.get(\"" + base + "/login\")\n[r.status, r.body].p\nC.get(\"" + base + "/whoami\").body.p"},
+				"invite!(\"http\")\nC.get(\"" + base + "/whoami\").body.p"})
+		} else {
+			// (keeps the case numbering the same in every worker)
+			scenarios = append(scenarios, struct {
+				name string
+				hist []string
+				b    string
+			}{"http scenario skipped: no loopback listener", nil, "1.p"})
 		}
 		for si, sc := range scenarios {
 			if !w.Take() {
